@@ -38,12 +38,27 @@ class C07(WigBedProp):
             else:
                 lines = [bbgen.opt_line(o)] + bbgen.wig_lines(names, sizes, data)
             nlev = len(o["zooms"].split(",")) if o["zooms"] not in ("auto", "none") else 3
+            # half of the files through the caching reader, and for half of those the narrow queries come BEFORE the full-span
+            # ones: a query then finds its first zoom block in the cache and has to fetch the following ones
+            o_reader = r.choice(["plain", "cached"])
+            narrow_first = r.chance(1, 2)
+            lines[0] = lines[0] + f" reader={o_reader}"
+            tags.add("reader_" + o_reader)
+            narrow = bbgen.gen_queries(r, names, sizes, data, ["zoom"], 4, zoom_levels=nlev, ips=o["ips"])
+            if narrow_first:
+                lines += narrow
+                for lv in range(nlev):
+                    for nm in names:
+                        lines.append(f"Q zoom {nm} {r.below(max(1, sizes[nm] // 4))} {sizes[nm]} #{lv}")
             for lv in range(nlev):
                 for nm in names:
                     lines.append(f"Q zoom {nm} 0 {sizes[nm]} #{lv}")
-            lines += bbgen.gen_queries(r, names, sizes, data, ["zoom"], 4, zoom_levels=nlev, ips=o["ips"])
+            if not narrow_first:
+                lines += narrow
             tags.add("zooms_" + ("auto" if o["zooms"] == "auto" else "manual"))
             out.append(CaseT(f"z{k}", "bed" if self.bed else "wig", [], lines, self.common_tags(o, names, data, tags)))
+        for k in range(8 if tier == "thorough" else 2):
+            out.append(bbgen.short_dest_case(rng.fork(f"shortdest{k}"), f"shortdest{k}", self.bed, zoom_queries=True))
         # zoom levels of files no bigtools writer produces (big-endian zoom records and indexes, other layouts)
         out += self.foreign_cases(rng.fork("foreign"), tier, self.bed, 50, 300)
         return out
